@@ -2,7 +2,7 @@
 # usage: tools_round.sh <outdir> <name>...  -- confirm seeded changes from <outdir>/<name> in a scratch worktree, store the
 # confirmed ones under /verif/seeded/<name>, and run the property's quick check against each (scratch worktree, not /repo)
 OUTD=$1; shift
-export WT=/tmp/wt/seedconf
+export WT=${WT:-/tmp/wt/seedconf}
 for n in "$@"; do
   [ -f $OUTD/$n/patch.diff ] || { echo "$n: no patch.diff"; continue; }
   rm -rf /tmp/wt/out/$n; cp -r $OUTD/$n /tmp/wt/out/$n
